@@ -640,6 +640,12 @@ def holdsC04Tick (sc : Json) (d w : TickCtx) : List String := Id.run do
   if isRestart sc then
     if !(d.impl.evs.any (fun e => e == .kmsgRestart true)) then viol := viol ++ ["dry_same_control.kmsg_marker"]
     if d.ret != "STOP" then viol := viol ++ ["dry_same_control.return"]
+    -- systemd_restart holds its ruleset off by sleeping post_action_delay inside run(): a dry run pauses exactly like that
+    let el (c : TickCtx) : Int := jint c.tk "elapsed_ns"
+    match (jstr? (jobj (jobj sc "cfg") "args") "post_action_delay").bind String.toNat? with
+    | some dly => if el d != Int.ofNat dly * 1000000000 then viol := viol ++ ["dry_same_control.pause"]
+    | none => pure ()
+    if jint w.tk "restarts_delta" == 1 && el w != el d then viol := viol ++ ["dry_same_control.differs_from_wet_success"]
     return viol.eraseDups
   if d.ret == "ASYNC_PAUSED" || w.ret == "ASYNC_PAUSED" then
     if d.ret != w.ret then viol := viol ++ ["dry_same_control.async"]
